@@ -23,7 +23,7 @@ theorem enter_finish2 (t : Ty) (p : Params) (c : Bool) (tag : Nat) (content : By
     have hpar := tlv_parse 0 c tag content [] (by decide) htag (by omega)
     rw [List.append_nil] at hpar
     rw [hpar]
-    simp only [tlv_length, Nat.lt_irrefl, gt_iff_lt, if_false]
+    simp only [tlv_length, Nat.lt_irrefl, gt_iff_lt, if_false, take_tlv]
     have htok : tagOk t p ⟨0, c, tag, content.length, (header 0 c tag content.length).length⟩ = true := by
       rcases hexp with h | h <;> simp [tagOk, hp, h]
     have hnu : needsUnwrap t p = false := by simp [needsUnwrap, hp]
@@ -41,7 +41,7 @@ theorem enter_finish2 (t : Ty) (p : Params) (c : Bool) (tag : Nat) (content : By
       have hpar := tlv_parse 2 true n (tlv 0 c tag content) [] (by decide) hn' hin
       rw [List.append_nil] at hpar
       rw [hpar]
-      simp only [tlv_length, Nat.lt_irrefl, gt_iff_lt, if_false]
+      simp only [tlv_length, Nat.lt_irrefl, gt_iff_lt, if_false, take_tlv]
       have htok : tagOk t p ⟨2, true, n, (header 0 c tag content.length).length + content.length,
           (header 2 true n ((header 0 c tag content.length).length + content.length)).length⟩ = true := by
         simp [tagOk, hp]
@@ -57,12 +57,15 @@ theorem enter_finish2 (t : Ty) (p : Params) (c : Bool) (tag : Nat) (content : By
         unfold tlv at this ⊢
         simp only [List.length_append] at this ⊢
         exact this
-      rw [hsub]
+      have htk : List.take ((header 2 true n ((header 0 c tag content.length).length + content.length)).length +
+            ((header 0 c tag content.length).length + content.length)) (tlv 2 true n (tlv 0 c tag content)) =
+          tlv 2 true n (tlv 0 c tag content) := List.take_of_length_le (by simp [tlv_length])
+      rw [htk, hsub]
       simp only
       have hpar2 := tlv_parse 0 c tag content [] (by decide) htag (by omega)
       rw [List.append_nil] at hpar2
       rw [hpar2]
-      simp only [tlv_length, Nat.lt_irrefl, gt_iff_lt, if_false]
+      simp only [tlv_length, Nat.lt_irrefl, gt_iff_lt, if_false, take_tlv]
       have htok2 : tagOk t { p with tagNumber := none, explicit := false }
           ⟨0, c, tag, content.length, (header 0 c tag content.length).length⟩ = true := by
         unfold untagged at hexp'
@@ -78,7 +81,7 @@ theorem enter_finish2 (t : Ty) (p : Params) (c : Bool) (tag : Nat) (content : By
       have hpar := tlv_parse 2 c n content [] (by decide) hn' (by omega)
       rw [List.append_nil] at hpar
       rw [hpar]
-      simp only [tlv_length, Nat.lt_irrefl, gt_iff_lt, if_false]
+      simp only [tlv_length, Nat.lt_irrefl, gt_iff_lt, if_false, take_tlv]
       have htok : tagOk t p ⟨2, c, n, content.length, (header 2 c n content.length).length⟩ = true := by
         simp [tagOk, hp]
       have hnu : needsUnwrap t p = false := by simp [needsUnwrap, hp, hex]
